@@ -177,6 +177,9 @@ impl<'a, 'b> Mul<&'b Value> for &'a Value {
             }
             (&Value::Number(ref co), &Value::Substance(ref sub))
             | (&Value::Substance(ref sub), &Value::Number(ref co)) => {
+                if sub.amount.unit.checked_mul(&co.unit).is_none() {
+                    return Err("Dimension exponent is too large".to_string());
+                }
                 (sub * co).map(Value::Substance)
             }
             (_, _) => Err("Operation is not defined".to_string()),
@@ -198,6 +201,14 @@ impl<'a, 'b> Div<&'b Value> for &'a Value {
                     .map(Value::Number)
             }
             (&Value::Substance(ref sub), &Value::Number(ref co)) => {
+                if sub
+                    .amount
+                    .unit
+                    .checked_mul(&co.unit.clone().recip())
+                    .is_none()
+                {
+                    return Err("Dimension exponent is too large".to_string());
+                }
                 (sub / co).map(Value::Substance)
             }
             (_, _) => Err("Operation is not defined".to_string()),
